@@ -121,12 +121,20 @@ def rand_dense(rng, d):
     return np.array([[rng.choice(SMALL) for _ in range(d)] for _ in range(d)], dtype=complex)
 
 
-def materialise(rng, pattern, dense_p, pad_p=0.25):
-    """pattern: list of qubit tuples -> list of [matrix, qubit list]"""
+def materialise(rng, pattern, dense_p, pad_p=0.25, shared_p=0.3):
+    """pattern: list of qubit tuples -> list of [matrix, qubit list].  With probability shared_p the matrices of the list are
+    drawn from a small pool of OBJECTS (one `H` / `CX` array used by many items, as every circuit builder does)"""
     items = []
+    pool = None
+    if rng.random() < shared_p:
+        pool = {2: [rand_dense(rng, 2) if rng.random() < max(dense_p, 0.5) else rand_monomial(rng, 2) for _ in range(2)],
+                4: [rand_dense(rng, 4) if rng.random() < dense_p else rand_monomial(rng, 4) for _ in range(2)]}
     for qs in pattern:
         d = 2 if len(qs) == 1 else 4
-        M = rand_dense(rng, d) if rng.random() < dense_p else rand_monomial(rng, d)
+        if pool is not None:
+            M = rng.choice(pool[d])
+        else:
+            M = rand_dense(rng, d) if rng.random() < dense_p else rand_monomial(rng, d)
         q = list(qs)
         if len(q) == 1 and rng.random() < pad_p:
             q = [q[0], -1]
@@ -252,10 +260,14 @@ def run_optimizer(level, n, items, nq=None):
     return None, out
 
 
-def run_backend(n, items, psi0):
+def run_backend(n, items, psi0, twice=False):
+    """twice: the SAME list object is evaluated a second time (a new backend object); the second state is returned"""
     from quantum_gates._simulation.backend import BinaryBackend
     try:
-        out = BinaryBackend(n).statevector(copy.deepcopy(items), np.array(psi0, dtype=complex))
+        arg = copy.deepcopy(items)
+        out = BinaryBackend(n).statevector(arg, np.array(psi0, dtype=complex))
+        if twice:
+            out = BinaryBackend(n).statevector(arg, np.array(psi0, dtype=complex))
     except Exception as e:                                     # noqa
         return {"err": type(e).__name__}, None
     return None, np.asarray(out)
@@ -426,6 +438,12 @@ def jitems(items):
 
 
 # ------------------------------------------------------------------ oracle on one case
+def sharing(items):
+    """for every item the index of the first item holding the same matrix OBJECT"""
+    first = {}
+    return [first.setdefault(id(it[0]), i) for i, it in enumerate(items)]
+
+
 def columns_for(rng, n):
     if n <= DENSE_NMAX:
         return np.eye(2 ** n, dtype=complex)
@@ -538,6 +556,7 @@ def main(ctx):
     t0 = time.time()
     opt_fail_keys = {(id(f["items"])) for f in failures if f["level"] == 4}
     be_explained = 0
+    twice_failures = []
     for bi, (fam, n, items, psi0) in enumerate(be_cases):
         err, out = run_backend(n, items, psi0)
         ctx.count()
@@ -551,6 +570,15 @@ def main(ctx):
             inexact += 0 if exact else 1
             if not eq:
                 bad = ("state-differs", "the returned state is not the state obtained by applying the items one after another")
+        if bad is None and bi % 3 == 0:
+            # the same list object evaluated a second time computes the same state (nothing the first evaluation did to the
+            # list may change what the list computes)
+            err2, out2 = run_backend(n, items, psi0, twice=True)
+            ctx.count()
+            if err2 is not None or out2.shape != want.shape or not same(out2, want)[0]:
+                twice_failures.append({"op": "statevector-twice", "level": 4, "n": n, "items": items, "psi": psi0, "kind": "second-evaluation-differs",
+                                       "text": "a second evaluation of the same list object " + (f"raised {err2['err']}" if err2 else
+                                               "does not return the state obtained by applying the items one after another"), "family": fam})
         if bad:
             # explained by the optimizer (the backend always fuses at level 4)?
             e4, o4 = run_optimizer(4, n, items)
@@ -717,9 +745,19 @@ def main(ctx):
                           "lists_in_this_class": len(best)}
             if op == "statevector":
                 replay_obj["psi"] = [[int(complex(z).real), int(complex(z).imag)] for z in f["psi"]]
+            sh = sharing(f["items"])
+            if sh != list(range(len(sh))):
+                replay_obj["same_object_as"] = sh
             call = (f"Optimizer({f['level']}, {describe(f['items'])}, range({f['n']})).optimize()" if op == "optimize"
                     else f"BinaryBackend({f['n']}).statevector({describe(f['items'])}, psi0)")
             ctx.violation(sig, replay_obj, f"{call}: {f['text']} [{shape2}]")
+    for f in sorted(twice_failures, key=lambda f: (len(f["items"]), f["n"]))[:3]:
+        replay_obj = {"op": "statevector-twice", "level": 4, "n": f["n"], "items": jitems(f["items"]), "failure": f["text"],
+                      "psi": [[int(complex(z).real), int(complex(z).imag)] for z in f["psi"]], "same_object_as": sharing(f["items"]),
+                      "lists_in_this_class": len(twice_failures)}
+        ctx.violation({"op": "statevector-twice", "error": f["kind"]}, replay_obj,
+                      f"BinaryBackend({f['n']}).statevector({describe(f['items'])}, psi0), then the same call on the same list object: {f['text']}")
+    cov["second_evaluation_failures"] = len(twice_failures)
     # float family: gates close to the identity
     ni_bad = None
     for k in range(60 if ctx.thorough else 12):
@@ -733,7 +771,7 @@ def main(ctx):
         sd, (desc, text) = ni_bad
         ctx.violation({"op": "near-identity", "error": "gate-dropped"}, {"mode": "near-identity", "seed": sd, "case": desc, "failure": text},
                       f"{desc}: {text}")
-    if not failures and not ni_bad:
+    if not failures and not ni_bad and not twice_failures:
         if mismatches:
             ctx.violation({"kind": "correspondence"},
                           {"first": mismatches[0], "count": len(mismatches),
@@ -814,7 +852,9 @@ def replay(ctx, path):
         print("replay names a broken obligation / correspondence, no input to re-run:", json.dumps(rp)[:600]); return 1
     n, level = rp["n"], rp["level"]
     items = [[to_np(m), list(q)] for m, q in rp["items"]]
-    print(f"input: n={n} level={level} items={describe(items)}")
+    for i, j in enumerate(rp.get("same_object_as", [])):
+        items[i][0] = items[j][0]              # one matrix object used by several items
+    print(f"input: n={n} level={level} items={describe(items)}" + (f"  same matrix object: {rp['same_object_as']}" if "same_object_as" in rp else ""))
     for i, (m, q) in enumerate(rp["items"]):
         print(f"  M{i} = {m}  on {q}")
     if rp["op"] == "optimize":
@@ -824,7 +864,7 @@ def replay(ctx, path):
         print("implementation:", err if err else [[jmat(i[0]), [int(x) for x in i[1]]] for i in out])
     else:
         psi0 = [complex(a, b) for a, b in rp["psi"]]
-        err, out = run_backend(n, items, psi0)
+        err, out = run_backend(n, items, psi0, twice=(rp["op"] == "statevector-twice"))
         want = ref_fold(n, items, np.array(psi0, dtype=complex)[:, None])[:, 0]
         bad = None
         if err is not None:
